@@ -717,3 +717,20 @@ Proof.
     destruct (i =? i') eqn:E; [|reflexivity]. apply N.eqb_eq in E. subst i'. cbn [negb orb].
     destruct (H _ _ _ _ _ _ _ H1 H2) as [-> Hc]. rewrite N.eqb_refl, Hc. reflexivity.
 Qed.
+
+(** * The premises of [same_sequence_committed] / [read_linearizable] are satisfiable *)
+Definition ex_ap (m : list N) (c : N) : list N * option (list N) := (c :: m, Some m).
+Definition ex_e (i c : N) : entry N := {| e_index := i; e_term := 1; e_kind := ENormal; e_data := PCmd i c |}.
+Definition ex_committed := [ex_e 1 10; ex_e 2 20; ex_e 3 30].
+Definition ex_bs := [[ex_e 1 10]; [ex_e 2 20]].
+Example read_linearizable_premises :
+  applier_total ex_ap /\ Forall (Forall digestible) ex_bs /\ log_indexed ex_committed /\
+  concat ex_bs = firstn 2 ex_committed /\
+  read_command_serve ex_ap 2 99 (run_batches ex_ap ex_bs (store_init (W := N) [])) = Some (Some [20; 10]) /\
+  applied_cmds (run_batches (resp := list N) ex_ap ex_bs (store_init [])) = cmds_of (firstn 2 ex_committed).
+Proof.
+  split; [intros m c; discriminate|].
+  split; [repeat constructor|].
+  split; [split; repeat constructor; cbn; lia|].
+  split; [reflexivity|]. split; vm_compute; reflexivity.
+Qed.
